@@ -697,7 +697,7 @@ class C14(Prop):
         "abbrev_full_name_resolves", "abbrev_resolves_iff_unique", "abbrev_ambiguous_iff_two", "abbrev_unknown_iff",
         "dashdash_ends_options", "first_nonoption_ends_options", "options_end_where_documented", "remaining_args_in_order", "plus_word_is_argument", "args_returned_in_order", "getArg_is_argv_from_optind",
         "every_history_ends_cleanly", "cmdline_ends_cleanly", "spoof_ends_cleanly", "environment_ends_cleanly", "configfile_ends_cleanly",
-        "setting_succeeds_iff", "integer_argument_syntax", "rejected_setting_changes_nothing", "unknown_long_option", "ambiguous_long_option", "argument_to_flag",
+        "setting_succeeds_iff", "integer_argument_syntax", "real_argument_syntax", "char_argument_syntax", "rejected_setting_changes_nothing", "unknown_long_option", "ambiguous_long_option", "argument_to_flag",
         "missing_argument_long", "unknown_short_option", "verifyConfig_ok_iff_consistent",
         "int_range_two_sided", "int_range_lower", "int_range_upper", "range_string_two_sided", "char_range_two_sided", "real_range_two_sided", "real_range_two_sided_literal", "plain_decimal_is_real", "real_range_lower", "real_range_upper",
         "isUsed_iff", "isDefault_of_default_setter", "not_default_has_setter", "demo_wf")]
